@@ -802,6 +802,27 @@ Lemma commits_follow_ok_runs c sched b :
   exists t, In (t, true) (s_outs (reach c sched)) /\ b = bind_of c t.
 Proof. intros Hk A. apply ok_binds_in. eapply I_okc; eauto. apply reach_Inv. Qed.
 
+(* every hook run was made by one of the configured threads *)
+Lemma runs_tid_step c s t s' :
+  (forall r, In r (s_runs s) -> h_tid r < nthreads c) -> step c s t = Some s' ->
+  forall r, In r (s_runs s') -> h_tid r < nthreads c.
+Proof.
+  intros P H. unfold step in H.
+  destruct (Nat.ltb t (nthreads c)) eqn:Hlt; cbn [negb] in H; [|discriminate].
+  apply Nat.ltb_lt in Hlt.
+  destruct (s_pcs s t); try discriminate;
+    try (destruct (s_gate s); [discriminate|]); inversion H; subst s'; cbn [s_runs set_pc]; auto.
+  intros r [<-|Hr]; cbn; auto.
+Qed.
+
+Lemma runs_tid c sched : forall r, In r (s_runs (reach c sched)) -> h_tid r < nthreads c.
+Proof.
+  unfold reach. assert (P0 : forall r, In r (s_runs init) -> h_tid r < nthreads c) by (intros r []).
+  revert P0. generalize init. induction sched as [|i rest IH]; intros s P; cbn [run fold_left]; auto.
+  apply IH. destruct i as [t|]; cbn [exec peek s_runs]; auto.
+  destruct (step c s t) eqn:E; auto. eapply runs_tid_step; eauto.
+Qed.
+
 (* Once *)
 Definition oreach (cands : list N) (sched : list nat) : ostate := orun cands sched oinit.
 
